@@ -3,9 +3,9 @@
    Lines: inv/ret of Append, AppendSync, Rotate, Close; fswrite / fsync of WAL files (from the syscall log); cp (replay of an image).   *)
 EXTENDS Integers, Sequences, FiniteSets, TLC, SequencesExt, Json, IOUtils
 Trace == ndJsonDeserialize(IOEnv.TRACE)
-VARIABLES appended, synced, pend, wrote, fsynced, closed, l, bad, nok, cs
-vars == <<appended, synced, pend, wrote, fsynced, closed, l, bad, nok, cs>>
-Init == appended = <<>> /\ synced = 0 /\ pend = "" /\ wrote = FALSE /\ fsynced = FALSE /\ closed = FALSE /\ l = 1 /\ bad = <<>> /\ nok = 0 /\ cs = -1
+VARIABLES appended, synced, pend, wrote, fsynced, closed, lastcut, l, bad, nok, cs
+vars == <<appended, synced, pend, wrote, fsynced, closed, lastcut, l, bad, nok, cs>>
+Init == appended = <<>> /\ synced = 0 /\ pend = "" /\ wrote = FALSE /\ fsynced = FALSE /\ closed = FALSE /\ lastcut = 0 /\ l = 1 /\ bad = <<>> /\ nok = 0 /\ cs = -1
 Ev == Trace[l]
 Check ==
   CASE Ev.t = "ret" ->
@@ -18,13 +18,21 @@ Check ==
          ELSE IF Len(Ev.out) < synced THEN "synced-record-lost"
          ELSE IF Ev.clean /\ Ev.out # appended THEN "clean-replay-incomplete"
          ELSE "ok"
+    [] Ev.t = "cut" ->
+         \* the last file of the closed log cut at byte Ev.len (ascending): replay succeeds with a prefix that only grows with the file
+         IF ~Ev.ok THEN "replay-failed-on-cut-last-file"
+         ELSE IF ~IsPrefix(Ev.out, appended) THEN "cut-replay-not-a-prefix-of-appended"
+         ELSE IF Len(Ev.out) < lastcut THEN "cut-replay-shrinks-with-longer-file"
+         ELSE IF Ev.len = Ev.size /\ Ev.out # appended THEN "clean-replay-incomplete"
+         ELSE "ok"
     [] OTHER -> "ok"
 Step ==
   /\ l <= Len(Trace) /\ l' = l + 1
-  /\ IF Ev.t = "reset" THEN appended' = <<>> /\ synced' = 0 /\ pend' = "" /\ wrote' = FALSE /\ fsynced' = FALSE /\ closed' = FALSE /\ cs' = Ev.case /\ UNCHANGED <<bad, nok>>
+  /\ IF Ev.t = "reset" THEN appended' = <<>> /\ synced' = 0 /\ pend' = "" /\ wrote' = FALSE /\ fsynced' = FALSE /\ closed' = FALSE /\ lastcut' = 0 /\ cs' = Ev.case /\ UNCHANGED <<bad, nok>>
      ELSE /\ UNCHANGED cs
           /\ LET c == Check IN IF c = "ok" THEN nok' = nok + 1 /\ UNCHANGED bad
                                ELSE bad' = Append(bad, [case |-> cs, line |-> l, clause |-> c, ev |-> ToString(Ev)]) /\ UNCHANGED nok
+          /\ lastcut' = IF Ev.t = "cut" /\ Ev.ok THEN Len(Ev.out) ELSE lastcut
           /\ CASE Ev.t = "inv" -> /\ pend' = Ev.op /\ wrote' = FALSE /\ fsynced' = FALSE
                                   /\ appended' = IF Ev.op \in {"append", "appendsync"} THEN Append(appended, Ev.rec) ELSE appended
                                   /\ UNCHANGED <<synced, closed>>
